@@ -26,6 +26,7 @@ from unittest import mock
 from . import coqlit as L
 from . import c20race
 from . import c20lin
+from . import c20end
 from .core import Prop, rp_import
 
 NKEYS = 6
@@ -244,16 +245,17 @@ class C20(Prop):
     module = 'c20'
     title = 'Raptor workers and masters account for every request'
     props_files = ['Props/C20.v']
-    extra_targets = ['Raptor/Oracle.vo', 'Raptor/RaceOracle.vo', 'Raptor/Lin.vo']
-    model_targets = ['Raptor/Oracle.vo', 'Raptor/RaceOracle.vo', 'Raptor/Lin.vo']
+    extra_targets = ['Raptor/Oracle.vo', 'Raptor/RaceOracle.vo', 'Raptor/Lin.vo', 'Raptor/EndingsOracle.vo']
+    model_targets = ['Raptor/Oracle.vo', 'Raptor/RaceOracle.vo', 'Raptor/Lin.vo', 'Raptor/EndingsOracle.vo']
     translators = []
-    header = 'From RP Require Import Raptor.Model Raptor.Oracle Raptor.Race Raptor.RaceOracle Raptor.Lin.'
+    header = 'From RP Require Import Raptor.Model Raptor.Oracle Raptor.Race Raptor.RaceOracle Raptor.Lin Raptor.Endings Raptor.EndingsOracle.'
     clauses = ['disjoint', 'accounting', 'quiescent_free', 'each_once', 'target_state', 'routing',
                'forwarding', 'truthful', 'env_python', 'env_process', 'stdio', 'threads_alive']
     corr_name = ('Raptor.Model (wrun/master_result/master_request/submit_tasks/drun/srun) vs DefaultWorker._request_cb/'
                  '_result_cb/_alloc/_dealloc, Master._result_cb/_request_cb/_submit_tasks, Worker._dispatch_*, '
                  'AgentSchedulingComponent._schedule_incoming/control_cb')
-    rule = ('corpus, then two-thread cases (one real thread held after its k-th line inside the bookkeeping code, the other run to '
+    rule = ('corpus, then sequences [request kind x ending] ... [probe] on one persistent worker, every kind x ending both through the real '
+            'Worker._dispatch_* directly and through the real MPIWorkerRank.run loop, plus random sequences; then two-thread cases (one real thread held after its k-th line inside the bookkeeping code, the other run to '
             'completion or until blocked: worker intake vs result callback vs intake vs own completion at every hold point of fixed pairs '
             'and at sampled hold points of random pairs; master result callbacks from two threads, _run_task vs its result, worker table, '
             'heartbeat pass vs registration/submission), then schedules of the dispatcher/task-process protocol of the real DefaultWorker._dispatch (the task '
@@ -278,6 +280,8 @@ class C20(Prop):
         'inside Coq by vm_compute with the model',
         'process-level environment observed with libc getenv (ctypes) in the worker process',
         'DefaultWorker._dispatch is run for real in a forked process (mp.Process, mp.Queue) on 16 payload endings',
+        'harness/c20end.py: real Worker._dispatch_* and real MPIWorkerRank.run (zmq getter/putter replaced by hand-over fakes, no MPI: '
+        'ranks = 1); state probe = os.environ, libc getenv, binding, cwd, stdio identity, _task_env',
         'harness/c20lin.py + harness/interleave.py: two real threads, one held by a sys.settrace line tracer; statement-level '
         'granularity, atomicity of single dict/list operations under the GIL trusted',
         'harness/c20race.py: the real _dispatch/_worker_proc on fake Lock/Event/Process/queue objects that park before every '
@@ -407,6 +411,8 @@ class C20(Prop):
         for c in self.gen_procend():
             yield c
         for c in c20race.gen_cases(rng, tier):
+            yield c
+        for c in c20end.gen_cases(rng, tier):
             yield c
         for c in c20lin.gen_wlin(rng, tier):
             yield c
@@ -750,6 +756,9 @@ class C20(Prop):
         return {'per_req': out}
 
     # .......................................................... process wrapper
+    def impl_endseq(self, case):
+        return c20end.Runner(self).run(case)
+
     def impl_wlin(self, case):
         return c20lin.impl_wlin(case)
 
@@ -941,6 +950,8 @@ class C20(Prop):
         k = case['kind']
         if k == 'race':
             return c20race.coq_row(case, obs)
+        if k == 'endseq':
+            return c20end.coq_row(case, obs)
         if k == 'wlin':
             return c20lin.wlin_row(case, obs)
         if k == 'mlin':
@@ -979,6 +990,8 @@ class C20(Prop):
         k = case['kind']
         if k == 'race':
             return c20race.model_show(case)
+        if k == 'endseq':
+            return c20end.model_show(case)
         if k == 'wlin':
             return c20lin.wlin_show(case)
         if k == 'mlin':
@@ -1007,6 +1020,8 @@ class C20(Prop):
         k = case['kind']
         if k in ('wlin', 'mlin'):
             return bool(obs['held'])
+        if k == 'endseq':
+            return any(r[4] != 'normal' for r in case['reqs'])
         if k == 'race':
             # the two parties really interleave after the timeout expired
             ps = [e[0] for e in obs['trace']]
@@ -1033,7 +1048,7 @@ class C20(Prop):
         kinds = set(e[0] for e in obs['evs'])
         return 'put' in kinds and (bool(obs['backlog']) or 'fail' in kinds or 'cancel' in kinds)
 
-    SITE = dict(wlin='DefaultWorker two threads', mlin='Master two threads', race='DefaultWorker._dispatch/_result_watcher', procend='DefaultWorker._dispatch', worker='DefaultWorker._request_cb/_result_cb', mresult='Master._result_cb',
+    SITE = dict(endseq='Worker._dispatch + probe', wlin='DefaultWorker two threads', mlin='Master two threads', race='DefaultWorker._dispatch/_result_watcher', procend='DefaultWorker._dispatch', worker='DefaultWorker._request_cb/_result_cb', mresult='Master._result_cb',
                 mrequest='Master._request_cb', msubmit='Master._submit_tasks', dispatch='Worker._dispatch',
                 sched='AgentSchedulingComponent._schedule_incoming/control_cb')
 
@@ -1044,6 +1059,8 @@ class C20(Prop):
             oob = any(not (1 <= (c if c is not None else 1) <= case['nc'] and 0 <= (g or 0) <= case['ng'])
                       for o in case['ops'] if o[0] == 'req' for _, c, g, _sf in o[1])
             cond = ':demand-beyond-worker' if oob else ':demand-within-worker'
+        if k == 'endseq':
+            cond = ':' + case['via']
         if k == 'wlin':
             cond = ':%s-held-vs-%s' % (case['first'][0], case['second'][0])
         if k == 'mlin':
@@ -1059,6 +1076,10 @@ class C20(Prop):
         k = case['kind']
         if k == 'race':
             for c in c20race.shrink(case):
+                yield c
+            return
+        if k == 'endseq':
+            for c in c20end.shrink(case):
                 yield c
             return
         if k == 'wlin':
